@@ -488,44 +488,85 @@ func caseOf(a *Alphabet, fe *foundEntry) *Case {
 }
 
 // confirmAll re-runs each witness 3 times. A read/model mismatch must reappear with the same signature at
-// the same step every time; a hash twin must differ every time. A witness that does not reproduce
-// identically is itself reported: the store then behaves differently on identical inputs.
+// the same step every time; a hash twin must differ every time. A hash comparison that does not come out
+// the same way three times means that identical inputs give different commit hashes: it is folded into
+// the class "hash-not-a-function-of-writes|twin=same-sequence", which is confirmed by executing the one
+// sequence up to 64 times and counting distinct hash lists.
 func confirmAll(a *Alphabet, f *found, execs *int64) []Found {
 	var sigs []string
 	for s := range f.m {
 		sigs = append(sigs, s)
 	}
 	sort.Strings(sigs)
-	var out []Found
+	res := map[string]*Found{}
+	put := func(sig, what string, count int64, c *Case) {
+		if cur, ok := res[sig]; ok {
+			cur.Count += count
+			if len(c.Ops) < len(cur.Case.Ops) {
+				cur.Case, cur.What = c, what
+			}
+			return
+		}
+		res[sig] = &Found{Sig: sig, What: what, Count: count, Case: c}
+	}
 	for _, s := range sigs {
 		fe := f.m[s]
 		c := caseOf(a, fe)
 		same := 0
-		for i := 0; i < 3; i++ {
-			sigsNow, _ := ReplayCase(a, c, fe.seq, fe.twinSeq)
-			*execs += 2
-			for _, x := range sigsNow {
-				if x == s {
-					same++
-					break
+		if fe.twin != "same-sequence" {
+			for i := 0; i < 3; i++ {
+				sigsNow, _ := ReplayCase(a, c, fe.seq, fe.twinSeq)
+				*execs += 2
+				for _, x := range sigsNow {
+					if x == s {
+						same++
+						break
+					}
 				}
 			}
-		}
-		what := fe.what
-		sig := s
-		if same != 3 {
-			if fe.twin == "same-sequence" && same > 0 {
-				// inherently probabilistic witness (two runs of one sequence differ): reproduced at least once
-				c.Note = fmt.Sprintf("re-execution reproduced the difference in %d of 3 attempts", same)
-			} else {
-				sig = "C09|not-reproducible|" + s[len("C09|"):]
-				what = fmt.Sprintf("re-executing the witness 3 times reproduced the finding %d times: the store behaves differently on identical inputs (%s)", same, fe.what)
-				c.Note = what
+			if same == 3 {
+				put(s, fe.what, fe.count, c)
+				continue
 			}
 		}
-		out = append(out, Found{Sig: sig, What: what, Count: fe.count, Case: c})
+		if fe.twin != "" {
+			// a hash comparison with a changing outcome
+			nd := &Case{Alphabet: a.Name, Config: fe.cfg, Ops: a.Strings(fe.seq), Twin: "same-sequence", TwinOps: a.Strings(fe.seq), Step: len(fe.seq) - 1,
+				TwinSig: fmt.Sprintf("C09|hash-not-a-function-of-writes|twin=same-sequence|layer=%s", fe.cfg.Layer())}
+			distinct, runs := repeatRuns(a, fe.cfg, fe.seq, 64)
+			*execs += int64(runs)
+			if distinct > 1 {
+				nd.Note = fmt.Sprintf("%d distinct hash lists in %d executions of this one sequence (found while checking %s)", distinct, runs, s)
+				put(nd.TwinSig, "executions of one and the same operation sequence on fresh stores return different commit hashes", fe.count, nd)
+				continue
+			}
+		}
+		what := fmt.Sprintf("re-executing the witness 3 times reproduced the finding %d times: the store behaves differently on identical inputs (%s)", same, fe.what)
+		c.Note = what
+		put("C09|not-reproducible|"+s[len("C09|"):], what, fe.count, c)
 	}
+	var out []Found
+	for _, fd := range res {
+		out = append(out, *fd)
+	}
+	sort.Slice(out, func(i, j int) bool { return out[i].Sig < out[j].Sig })
 	return out
+}
+
+// repeatRuns executes seq up to max times and returns the number of distinct hash lists seen (it stops at
+// the first difference).
+func repeatRuns(a *Alphabet, cfg Config, seq []uint8, max int) (distinct, runs int) {
+	r := NewRunner(a, cfg)
+	seen := map[uint64]bool{}
+	for runs < max {
+		r.Run(seq)
+		runs++
+		seen[r.Digest] = true
+		if len(seen) > 1 {
+			break
+		}
+	}
+	return len(seen), runs
 }
 
 // ReplayCase executes a case (sequence + optional twin) and returns the violation signatures it shows,
@@ -540,6 +581,20 @@ func ReplayCase(a *Alphabet, c *Case, seq, twinSeq []uint8) (sigs []string, tran
 		sigs = append(sigs, m.Sig)
 	}
 	if c.Twin == "" {
+		return
+	}
+	if c.Twin == "same-sequence" {
+		distinct, runs := repeatRuns(a, c.Config, seq, 64)
+		if distinct > 1 {
+			sig := c.TwinSig
+			if sig == "" {
+				sig = fmt.Sprintf("C09|hash-not-a-function-of-writes|twin=same-sequence|layer=%s", c.Config.Layer())
+			}
+			sigs = append(sigs, sig)
+			transcript = append(transcript, fmt.Sprintf("HASH LISTS DIFFER between executions of this one sequence (%d executions needed)  <-- %s", runs+1, sig))
+		} else {
+			transcript = append(transcript, fmt.Sprintf("%d further executions of the sequence all returned the same hash list", runs))
+		}
 		return
 	}
 	cfgB := c.Config
